@@ -133,7 +133,7 @@ class ContractIndex:
         return missing
 
 
-SPEC_FUNCS = {'same_dict_old', 'is_heap_obj', 'owned', 'take', 'last', 'old', 'implies', 'iff', 'fresh', 'seq', 'dhas', 'dget', 'dlen', 'forall', 'exists', 'type_is',
+SPEC_FUNCS = {'uf', 'ghost_const', 'same_dict_old', 'is_heap_obj', 'owned', 'take', 'last', 'old', 'implies', 'iff', 'fresh', 'seq', 'dhas', 'dget', 'dlen', 'forall', 'exists', 'type_is',
               'is_str', 'is_int', 'is_none', 'is_bool', 'is_ref', 'calls', 'isinstance', 'len', 'ite', 'cls_of',
               'attr', 'same_dict', 'same_seq', 'sval', 'ival', 'unchanged', 'allocated', 'subseq', 'contains',
               'prefixof', 'suffixof', 'strlen', 'substr', 'str_contains', 'str_indexof', 'int_of', 'empty_seq',
@@ -599,7 +599,9 @@ class SpecMixin:
 
     def sf_dget(self, st, node, env, cmod):
         d, k = self._args(st, node, env, cmod)
-        return SV(self.dict_get(st, r_of(self.to_term(st, d)), self.to_term(st, k)))
+        val = self.dict_get(st, r_of(self.to_term(st, d)), self.to_term(st, k))
+        st.assume(z3.Implies(self.dict_has(st, r_of(self.to_term(st, d)), self.to_term(st, k)), self.older(st, val)))
+        return SV(val)
 
     def sf_dlen(self, st, node, env, cmod):
         (d,) = self._args(st, node, env, cmod)
@@ -875,6 +877,16 @@ class SpecMixin:
         (a,) = self._args(st, node, env, cmod)
         t = self.to_term(st, a)
         return BoolTermV(AND(is_ref(t), r_of(t) >= I(self.first_heap_id())))
+
+    def sf_uf(self, st, node, env, cmod):
+        """uf('name', a, b, ...): an uninterpreted function of Val arguments (result Val)"""
+        name = node.args[0].value
+        args = [self.to_term(st, self.sev(st, a, env, cmod)) for a in node.args[1:]]
+        f = self.uf('spec_uf_' + name, [Val] * len(args), Val)
+        return SV(f(*args))
+
+    def sf_ghost_const(self, st, node, env, cmod):
+        return SV(z3.Const('ghost_' + node.args[0].value, Val))
 
     def sf_none_(self, st, node, env, cmod):
         return self.py_none()
